@@ -46,7 +46,19 @@ def symOps : PowOps Sym := ⟨Sym.mul, Sym.div, Sym.powf⟩
 def showSymList (l : List Sym) : String :=
   if l.isEmpty then "-" else ";".intercalate (l.map Sym.show)
 
-def handle (op : String) (args : List String) : Option String :=
+/-- round-5 spellings: `mi_<macro>` = the constructor macro called with IMPURE argument expressions (the harness logs how often and
+in which order the macro evaluates them); the model of the macro is the same wrapper -/
+def normOp : String → String
+  | "mi_zeros" => "m_zeros"
+  | "mi_ones" => "m_ones"
+  | "mi_rand" => "m_rand"
+  | "mi_full" => "m_full"
+  | "mi_eye" => "m_eye"
+  | "mi_identity" => "m_identity"
+  | "mi_arange" => "m_arange"
+  | op => op
+
+def handleCore (op : String) (args : List String) : Option String :=
   match op, args with
   | "full", [_, sh, v] => do
     let sh ← parseNatList? sh; let v ← parseInt? v
@@ -131,6 +143,8 @@ def handle (op : String) (args : List String) : Option String :=
   -- compares with the answers of the arms above on every ordinary case of the same run (`oracle_report` lines carry the count).
   | "oracle_report", _ => some "ok report"
   | _, _ => if op.startsWith "n_" then some "ok native" else none
+
+def handle (op : String) (args : List String) : Option String := handleCore (normOp op) args
 
 end Driver.C16
 
